@@ -8,6 +8,7 @@ from rules.common import has_fact, result_blocks
 STREAM = "decoder::StripHeaderReader::<R>::strip_head_read"
 SLICE = "decoder::strip_junk_header"
 JUNK = "decoder::is_junk_json"
+_UNIFORM = {}  # (id(facts), table) -> bytes that deviate from their class (computed once per fact base)
 STATES = ["Undecided", "Junk", "AwaitingNewline", "PastHeader"]
 CLASSES = {"junk": 41, "cr": 13, "lf": 10, "other": 120}
 
@@ -59,7 +60,27 @@ def stream_table(ctx, rule):
                    "ret": [(e[1], e[2]) for e in rets]}
             table[(sname, cname)] = out
             ctx.check(end[0] in ("stop", "return"), rule, fn, "walk:%s/%s" % (sname, cname), "the path for state %s and a %s byte is determined by the state and the byte alone" % (sname, cname), detail=str(end))
+    # the four classes are the whole alphabet: every byte value behaves like the representative of its class (no byte is
+    # singled out for a treatment of its own, e.g. one that ends the header early)
+    def cls(v):
+        return "cr" if v == 13 else "lf" if v == 10 else "junk" if junk_t[v] else "other"
+    odd = _UNIFORM.get((id(ctx.facts), "stream"))
+    for si, sname in enumerate(STATES) if odd is None else ():
+        odd = odd if odd is not None else []
+        for v in range(256):
+            env = {"discr(arg1.header_state)": si, "arg1.header_state": si, "byte": v, "decoder::is_junk_json(byte)": junk_t[v]}
+            ev, end = absint.walk(b, entry, env, roles, stop=[heads[0]])
+            nxt = [e[2] for e in ev if e[0] == "store" and e[1] == "header_state"]
+            sig = (end[0], STATES[nxt[-1]] if nxt and nxt[-1] is not None else None, len([e for e in ev if e[0] == "ret"]), len([e for e in ev if e[0] == "call" and e[1] == "slice::copy_from_slice"]),
+                   len([e for e in ev if e[0] == "call" and e[1] == "Error::new"]))
+            ref = table[(sname, cls(v))]
+            if sig != (ref["end"], ref["next"], len(ref["ret"]), len(ref["copy"]), len(ref["err"])):
+                odd.append("%s/0x%02x" % (sname, v))
+    odd = odd or []
+    _UNIFORM[(id(ctx.facts), "stream")] = odd
+    ctx.check(not odd, rule, fn, "classes:uniform", "over all 256 byte values and all four states, a byte is treated like the representative of its class (junk / CR / LF / other)", detail=str(odd[:8]))
     ctx.count("stream_transitions", len(table))
+    ctx.count("stream_byte_walks", 256 * len(STATES))
     return table, roles
 
 
@@ -120,7 +141,27 @@ def slice_table(ctx, rule):
             errs = [e[2] for e in ev if e[0] == "call" and e[1] == "Error::new"]
             table[(st, cname)] = {"end": end[0], "next": nxt, "ret": rets, "err": errs}
             ctx.check(end[0] in ("stop", "return"), rule, fn, "walk:%d/%s" % (st, cname), "the path for need_newline=%d and a %s byte is determined" % (st, cname), detail=str(end))
+    def cls(v):
+        return "cr" if v == 13 else "lf" if v == 10 else "junk" if junk_t[v] else "other"
+    odd = _UNIFORM.get((id(ctx.facts), "slice"))
+    for st in (0, 1) if odd is None else ():
+        odd = odd if odd is not None else []
+        for v in range(256):
+            env = {"need_nl": st, "byte": v, "decoder::is_junk_json(byte)": junk_t[v]}
+            ev, end = absint.walk(b, entry, env, roles, stop=[heads[0]])
+            nxt = st
+            for e in ev:
+                if e[0] == "assign" and e[1] == flag[0] and e[2] is not None:
+                    nxt = e[2]
+            sig = (end[0], nxt, len([e for e in ev if e[0] == "ret"]), len([e for e in ev if e[0] == "call" and e[1] == "Error::new"]))
+            ref = table[(st, cls(v))]
+            if sig != (ref["end"], ref["next"], len(ref["ret"]), len(ref["err"])):
+                odd.append("%d/0x%02x" % (st, v))
+    odd = odd or []
+    _UNIFORM[(id(ctx.facts), "slice")] = odd
+    ctx.check(not odd, rule, fn, "classes:uniform", "over all 256 byte values and both flag states, a byte is treated like the representative of its class (junk / CR / LF / other)", detail=str(odd[:8]))
     ctx.count("slice_transitions", len(table))
+    ctx.count("slice_byte_walks", 512)
     return table, roles
 
 
